@@ -1,13 +1,23 @@
 (** Singly linked list: iterators (forward, zip) - lemma family for C07.
 
+    cc_slist_iter_add leaves current / prev alone; cc_slist_iter_next re-establishes prev by walking from current over
+    whatever was added through the iterator until it meets next ([sprev_walk]).
+
     Proved here:
-      sit_pos                position invariant of the forward iterator: [done] have been yielded, [rest] is still to come;
-                             either there is no current node and prev is the last node of [done], or current is the last
-                             node of [done] and prev is its predecessor (what unlinkn needs)
+      scur_ok                what the iterator knows about its current node: either there is none and prev is the last node
+                             of [done]; or current is a node of [done], followed only by nodes added through the iterator
+                             ([Added]), and prev is the predecessor of current
+      sprev_walk_seg, sprev_of_spec   the walk of next() ends on the last node of [done]
+      sit_pos                position invariant of the forward iterator: [done] lies before the cursor, [rest] is still to come
       siter_init_pos, siter_next_end, siter_next_yield
       siter_drain, siter_drain_spec, siter_fresh_complete   a fresh iterator yields the list in order, then CC_ITER_END
       siter_index_spec, siter_replace_spec/_none, siter_remove_spec/_none, siter_add_spec   after a yield
-      szip_pos, szip_init_pos, szip_next_end, szip_next_yield, szip_drain, szip_drain_spec, szip_fresh_complete *)
+      szip_pos, szip_init_pos, szip_next_end, szip_next_yield, szip_drain, szip_drain_spec, szip_fresh_complete
+
+    Contract (one structural change per yield): [siter_remove_spec] and [siter_add_spec] are stated for an iterator whose
+    current node is the LAST node of [done] (nothing added since the yield). A second add after the same yield is outside
+    the contract: the C code overwrites current->next, so the node added first drops out of the chain while size counts it
+    (model and code agree on the ensuing NULL dereference). A remove after an add would leave prev stale. *)
 From Coq Require Import Permutation.
 From CC Require Import Base.Prelude Base.ListMem Base.Alloc Base.AllocProofs.
 From CC Require Import Generated.Status Generated.Guards List_.ListModel List_.ListHeap List_.ListProofs1.
@@ -20,12 +30,72 @@ Proof.
   rewrite N.mod_add by (unfold W; lia). apply N.mod_small. lia.
 Qed.
 
+(* ------------------------------------------------------------------------------------------ current / prev *)
+Definition scur_ok (cur pv : N) (done : list (N * N)) : Prop :=
+  (cur = 0 /\ pv = last_id done 0) \/
+  (exists D d Added, done = D ++ (cur, d) :: Added /\ pv = last_id D 0).
+
+Lemma scur_ok_yield x d done : scur_ok x (last_id done 0) (done ++ [(x, d)]).
+Proof. right. exists done, d, []. split; reflexivity. Qed.
+
+(** prev = current; while (prev->next != next) prev = prev->next; on a segment that ends in [nxt]. *)
+Lemma sprev_walk_seg h nxt L : forall fuel c dc,
+  sseg h ((c, dc) :: L) nxt -> ~ In nxt (ids L) -> ~ In 0 (ids ((c, dc) :: L)) -> (length L <= fuel)%nat ->
+  sprev_walk fuel h c nxt = Ok (last_id ((c, dc) :: L) 0).
+Proof.
+  induction L as [|[c' d'] L' IH]; intros fuel c dc Hs Hni Hnz Hf.
+  - destruct (nz_tail _ _ _ Hnz) as [Hc0 _]. destruct Hs as [Hc _]. cbn [first_id] in Hc.
+    destruct fuel; cbn [sprev_walk]; rewrite (sload_ok _ _ _ Hc0 Hc); cbn [bind sn_next]; rewrite N.eqb_refl; reflexivity.
+  - destruct (nz_tail _ _ _ Hnz) as [Hc0 Hnz']. destruct Hs as [Hc Hs']. cbn [first_id] in Hc.
+    destruct fuel as [|f]; [cbn in Hf; lia|]. cbn [sprev_walk]. rewrite (sload_ok _ _ _ Hc0 Hc). cbn [bind sn_next].
+    replace (c' =? nxt) with false by (symmetry; apply N.eqb_neq; intros ->; apply Hni; left; reflexivity).
+    rewrite (IH f c' d' Hs'); [reflexivity| |exact Hnz'|cbn in Hf; lia].
+    intros Hin. apply Hni. right. exact Hin.
+Qed.
+
+(** The predecessor recorded by next(): the last node before the one being yielded. *)
+Lemma sprev_of_spec s done x d t cur pv :
+  srep s (done ++ (x, d) :: t) -> scur_ok cur pv done -> sprev_of s cur pv x = Ok (last_id done 0).
+Proof.
+  intros R [[-> ->]|(D & dc & Added & -> & _)]; unfold sprev_of; [reflexivity|].
+  pose proof (sr_nz _ _ R) as Hnz. pose proof (sr_nodup _ _ R) as Hnd. pose proof (sr_seg _ _ R) as Hs.
+  rewrite <- app_assoc in Hnz, Hnd, Hs. cbn [app] in Hnz, Hnd, Hs.
+  assert (Hc0 : cur <> 0) by (intros ->; apply Hnz; rewrite ids_app; apply in_or_app; right; left; reflexivity).
+  replace (cur =? 0) with false by lia. cbn [negb].
+  (* the segment cur :: Added ends in x *)
+  apply sseg_app in Hs. destruct Hs as [_ Hs].
+  change ((cur, dc) :: Added ++ (x, d) :: t) with (((cur, dc) :: Added) ++ (x, d) :: t) in Hs.
+  apply sseg_app in Hs. destruct Hs as [Hs _]. cbn [first_id] in Hs.
+  rewrite last_id_app.
+  assert (Hlast : last_id ((cur, dc) :: Added) (last_id D 0) = last_id ((cur, dc) :: Added) 0) by reflexivity.
+  rewrite Hlast.
+  apply sprev_walk_seg; [exact Hs| | |].
+  - destruct (nodup_mid _ _ _ _ Hnd) as (_ & Hnd2 & _ & _ & _ & _).
+    change (ids (Added ++ (x, d) :: t)) with (ids (Added ++ (x, d) :: t)) in Hnd2.
+    destruct (nodup_mid _ _ _ _ Hnd2) as (_ & _ & Hx & _). exact Hx.
+  - intros H0. apply Hnz. rewrite ids_app. apply in_or_app. right.
+    change ((cur, dc) :: Added ++ (x, d) :: t) with (((cur, dc) :: Added) ++ (x, d) :: t). rewrite ids_app. apply in_or_app. left. exact H0.
+  - unfold sfuel_of. rewrite (sr_size _ _ R), lenN_length, !app_length. cbn [length]. rewrite app_length. lia.
+Qed.
+
+(** With duplicate-free ids the position of a node is unique. *)
+Lemma snoc_split_unique (A D Added : list (N * N)) x d d' :
+  NoDup (ids (A ++ [(x, d)])) -> A ++ [(x, d)] = D ++ (x, d') :: Added -> D = A /\ Added = [].
+Proof.
+  intros Hnd E. destruct (list_eq_dec (fun p q : N * N => ltac:(decide equality; apply N.eq_dec)) Added []) as [->|Hne].
+  - apply app_inj_tail in E. destruct E as [-> _]. auto.
+  - exfalso. destruct (exists_last Hne) as (Ad & lst & ->).
+    change (D ++ (x, d') :: Ad ++ [lst]) with (D ++ ((x, d') :: Ad) ++ [lst]) in E. rewrite app_assoc in E.
+    apply app_inj_tail in E. destruct E as [EA _]. subst A.
+    rewrite <- app_assoc in Hnd. cbn [app] in Hnd. apply nodup_mid in Hnd. destruct Hnd as (_ & _ & _ & Hx & _).
+    apply Hx. rewrite ids_app. apply in_or_app. right. left. reflexivity.
+Qed.
+
 (* ------------------------------------------------------------------------------------------ forward iterator *)
 Record sit_pos (it : siter) (done rest : list (N * N)) : Prop := {
   sip_next : si_next it = first_id rest 0;
   sip_index : si_index it = lenN done;
-  sip_cur : (si_current it = 0 /\ si_prev it = last_id done 0) \/
-            (exists done' d, done = done' ++ [(si_current it, d)] /\ si_prev it = last_id done' 0);
+  sip_cur : scur_ok (si_current it) (si_prev it) done;
 }.
 
 Lemma siter_init_pos s l : srep s l -> sit_pos (siter_init s) [] l.
@@ -34,34 +104,21 @@ Proof. intros R. constructor; cbn; [apply R|reflexivity|left; auto]. Qed.
 Lemma siter_next_end s it done : sit_pos it done [] -> siter_next s it = Ok (CC_ITER_END, 0, it).
 Proof. intros [Hn _ _]. unfold siter_next. rewrite Hn. reflexivity. Qed.
 
-(** The predecessor the next yield will record. *)
-Lemma sit_pos_prev it done rest :
-  ~ In 0 (ids done) -> sit_pos it done rest ->
-  (if negb (si_current it =? 0) then si_current it else si_prev it) = last_id done 0.
-Proof.
-  intros Hnz [_ _ [[Hc Hp]|(done' & d & Ed & Hp)]].
-  - rewrite Hc. cbn. exact Hp.
-  - assert (Hc0 : si_current it <> 0).
-    { intros E0. apply Hnz. rewrite Ed, ids_app. apply in_or_app. right. left. cbn. congruence. }
-    replace (si_current it =? 0) with false by lia. cbn [negb]. rewrite Ed, last_id_snoc. reflexivity.
-Qed.
-
-(** After a yield the current node is [x] and prev is its predecessor in the list. *)
+(** After a yield the current node is [x] and prev is its predecessor in the list (found by walking over the nodes
+    that were added through the iterator since the previous yield). *)
 Lemma siter_next_yield s it done x d t :
   srep s (done ++ (x, d) :: t) -> sit_pos it done ((x, d) :: t) ->
   exists it', siter_next s it = Ok (CC_OK, d, it') /\ sit_pos it' (done ++ [(x, d)]) t /\
               si_current it' = x /\ si_prev it' = last_id done 0.
 Proof.
-  intros R Hp. pose proof Hp as [Hn Hi _]. unfold siter_next. rewrite Hn. cbn [first_id].
+  intros R [Hn Hi Hc]. unfold siter_next. rewrite Hn. cbn [first_id].
   assert (Hx0 : x <> 0) by (intros ->; apply (sr_nz _ _ R); rewrite ids_app; apply in_or_app; right; left; reflexivity).
-  assert (Hnzd : ~ In 0 (ids done)) by (intros H0; apply (sr_nz _ _ R); rewrite ids_app; apply in_or_app; left; exact H0).
   replace (x =? 0) with false by lia.
   rewrite (sload_ok _ _ _ Hx0 (sseg_mid _ _ _ _ _ _ (sr_seg _ _ R))). cbn [bind sn_data sn_next].
-  rewrite (sit_pos_prev it done _ Hnzd Hp).
+  rewrite (sprev_of_spec s done x d t _ _ R Hc). cbn [bind].
   eexists. split; [reflexivity|]. split; [|split; reflexivity].
-  constructor; cbn [si_next si_index si_current si_prev]; [reflexivity| |].
-  - rewrite Hi, lenN_app. reflexivity.
-  - right. exists done, d. split; reflexivity.
+  constructor; cbn [si_next si_index si_current si_prev]; [reflexivity| |apply scur_ok_yield].
+  rewrite Hi, lenN_app. reflexivity.
 Qed.
 
 (** Calling next [k] times: the values yielded and the status of the last call that did not yield (CC_OK if all did). *)
@@ -95,14 +152,15 @@ Proof.
   rewrite swsub1 by lia. lia.
 Qed.
 
-(** The invariant pins down prev once current is known. *)
+(** When the current node is the last node of [done] (nothing added since the yield), prev is its predecessor. *)
 Lemma sit_pos_cur it done x d rest :
-  x <> 0 -> sit_pos it (done ++ [(x, d)]) rest -> si_current it = x -> si_prev it = last_id done 0.
+  x <> 0 -> NoDup (ids (done ++ [(x, d)])) -> sit_pos it (done ++ [(x, d)]) rest -> si_current it = x -> si_prev it = last_id done 0.
 Proof.
-  intros Hx0 [_ _ [[Hc _]|(done' & d' & Ed & Hp)]] Hcx; [congruence|].
-  apply app_inj_tail in Ed. destruct Ed as [-> _]. exact Hp.
+  intros Hx0 Hnd [_ _ [[Hc _]|(D & d' & Added & Ed & Hp)]] Hcx; [congruence|].
+  rewrite Hcx in Ed. destruct (snoc_split_unique _ _ _ _ _ _ Hnd Ed) as [-> _]. exact Hp.
 Qed.
 
+(** replace acts on the element last returned by next, wherever the cursor has moved since (also after an add). *)
 Lemma siter_replace_spec s it done x d rest v :
   srep s (done ++ (x, d) :: rest) -> si_current it = x ->
   exists s', siter_replace s it v = Ok (CC_OK, d, s') /\ srep s' (done ++ (x, v) :: rest) /\ ssame_hdr s s'.
@@ -119,8 +177,15 @@ Qed.
 Lemma siter_replace_none s it v : si_current it = 0 -> siter_replace s it v = Ok (CC_ERR_VALUE_NOT_FOUND, 0, s).
 Proof. intros H. unfold siter_replace. rewrite H. reflexivity. Qed.
 
-(** remove: the yielded node is unlinked through the recorded predecessor; afterwards there is no current node, prev
-    is the last node before the gap, and next() continues with the old successor. *)
+Lemma nodup_snoc_of_mid done (x d : N) rest : NoDup (ids (done ++ (x, d) :: rest)) -> NoDup (ids (done ++ [(x, d)])).
+Proof.
+  change (done ++ (x, d) :: rest) with (done ++ [(x, d)] ++ rest). rewrite app_assoc, (ids_app (done ++ [(x, d)])).
+  intros H. apply nodup_app in H. tauto.
+Qed.
+
+(** remove (directly after the yield, i.e. the yielded node is still the last node of [done]): the yielded node is
+    unlinked through the recorded predecessor; afterwards there is no current node, prev is the last node before the
+    gap, and next() continues with the old successor. *)
 Lemma siter_remove_spec s it done x d rest a F :
   srep s (done ++ (x, d) :: rest) -> slown a s (done ++ (x, d) :: rest) F ->
   sit_pos it (done ++ [(x, d)]) rest -> si_current it = x -> lenN (done ++ [(x, d)]) < W ->
@@ -129,7 +194,7 @@ Lemma siter_remove_spec s it done x d rest a F :
 Proof.
   intros R Hown Hp Hl HW.
   assert (Hx0 : x <> 0) by (intros ->; apply (sr_nz _ _ R); rewrite ids_app; apply in_or_app; right; left; reflexivity).
-  pose proof (sit_pos_cur _ _ _ _ _ Hx0 Hp Hl) as Hpv. destruct Hp as [Hn Hi _].
+  pose proof (sit_pos_cur _ _ _ _ _ Hx0 (nodup_snoc_of_mid _ _ _ _ (sr_nodup _ _ R)) Hp Hl) as Hpv. destruct Hp as [Hn Hi _].
   unfold siter_remove. rewrite Hl, Hpv.
   replace (x =? 0) with false by lia.
   destruct (sunlinkn_spec s done x d rest a F R Hown) as (s' & a' & E & R' & Hown' & Hh & Hf & _).
@@ -140,20 +205,21 @@ Qed.
 Lemma siter_remove_none s it a : si_current it = 0 -> siter_remove s it a = Ok (CC_ERR_VALUE_NOT_FOUND, 0, s, it, a).
 Proof. intros H. unfold siter_remove. rewrite H. reflexivity. Qed.
 
-(** add: the new node follows the yielded one, next() continues with the old successor, the inserted node becomes
-    current and the yielded one its prev (so a following remove removes the INSERTED node). *)
+(** add (directly after the yield): the new node follows the yielded one, next() continues with the old successor;
+    current and prev are NOT touched, so replace / remove keep acting on the yielded element (documented semantics),
+    and the next call of next() steps prev over the new node. *)
 Lemma siter_add_spec s it done x d rest a F v :
   srep s (done ++ (x, d) :: rest) -> slown a s (done ++ (x, d) :: rest) F ->
   sit_pos it (done ++ [(x, d)]) rest -> si_current it = x ->
   match alloc (sl_mem s) SNODE_BYTES a with
   | (Some id, a1) => exists s' it', siter_add s it v a = Ok (CC_OK, s', it', a1) /\
         srep s' (done ++ (x, d) :: (id, v) :: rest) /\ slown a1 s' (done ++ (x, d) :: (id, v) :: rest) F /\
-        sit_pos it' (done ++ [(x, d); (id, v)]) rest /\ si_current it' = id /\ si_prev it' = x /\ ssame_hdr s s' /\ aframe a a1
+        sit_pos it' (done ++ [(x, d); (id, v)]) rest /\ si_current it' = x /\ si_prev it' = si_prev it /\ ssame_hdr s s' /\ aframe a a1
   | (None, a1) => siter_add s it v a = Ok (CC_ERR_ALLOC, s, it, a1) /\ slown a1 s (done ++ (x, d) :: rest) F /\ live a1 = live a /\
                   aframe a a1 /\ (plan a <> [] \/ limit a < SNODE_BYTES)
   end.
 Proof.
-  intros R [Hk Ho] [Hn Hi _] Hl. unfold siter_add.
+  intros R [Hk Ho] Hp Hl. unfold siter_add.
   destruct (alloc (sl_mem s) SNODE_BYTES a) as [[id|] a1] eqn:E.
   2:{ destruct (alloc_none _ _ _ _ E Hk) as (Hl1 & Hk1 & Hf & Hw). split; [reflexivity|].
       split; [split; [assumption|unfold sowns; rewrite Hl1; exact Ho]|auto]. }
@@ -162,6 +228,7 @@ Proof.
   destruct (nodup_mid _ _ _ _ (sr_nodup _ _ R)) as (Hnd1 & Hnd2 & Hx1 & Hx2 & Hdis & _).
   pose proof (sr_nz _ _ R) as Hnz.
   assert (Hx0 : x <> 0) by (intros ->; apply Hnz; rewrite ids_app; apply in_or_app; right; left; reflexivity).
+  pose proof (sit_pos_cur _ _ _ _ _ Hx0 (nodup_snoc_of_mid _ _ _ _ (sr_nodup _ _ R)) Hp Hl) as Hpv. destruct Hp as [Hn Hi _].
   assert (Hxid : x <> id) by (intros ->; apply Hni; rewrite ids_app; apply in_or_app; right; left; reflexivity).
   assert (Hni1 : ~ In id (ids done)) by (intros H0; apply Hni; rewrite ids_app; apply in_or_app; left; exact H0).
   assert (Hni2 : ~ In id (ids rest)) by (intros H0; apply Hni; rewrite ids_app; apply in_or_app; right; right; exact H0).
@@ -204,7 +271,7 @@ Proof.
     + apply (sr_hdr _ _ R).
   - split; [|auto 6]. constructor; cbn [si_next si_index si_current si_prev]; [reflexivity| |].
     + rewrite Hi, !lenN_app, !lenN_cons. cbn [lenN length N.of_nat]. lia.
-    + right. exists (done ++ [(x, d)]), v. split; [rewrite <- app_assoc; reflexivity|rewrite last_id_snoc; reflexivity].
+    + right. exists done, d, [(id, v)]. split; [reflexivity|exact Hpv].
 Qed.
 
 (* ------------------------------------------------------------------------------------------ zip iterator *)
@@ -213,16 +280,18 @@ Record szip_pos (z : sziter) (done1 rest1 done2 rest2 : list (N * N)) : Prop := 
   szp_next2 : sz2_next z = first_id rest2 0;
   szp_index1 : sz_index z = lenN done1;
   szp_index2 : sz_index z = lenN done2;
+  szp_cur1 : scur_ok (sz1_current z) (sz1_prev z) done1;
+  szp_cur2 : scur_ok (sz2_current z) (sz2_prev z) done2;
 }.
 
 Lemma szip_init_pos s1 l1 s2 l2 : srep s1 l1 -> srep s2 l2 -> szip_pos (szip_init s1 s2) [] l1 [] l2.
-Proof. intros R1 R2. constructor; cbn; try reflexivity; [apply R1|apply R2]. Qed.
+Proof. intros R1 R2. constructor; cbn; try reflexivity; [apply R1|apply R2|left; auto|left; auto]. Qed.
 
 Lemma szip_next_end s1 s2 z done1 rest1 done2 rest2 :
   szip_pos z done1 rest1 done2 rest2 -> rest1 = [] \/ rest2 = [] ->
   szip_next s1 s2 z = Ok (CC_ITER_END, 0, 0, z).
 Proof.
-  intros [H1 H2 _ _] He. unfold szip_next. rewrite H1, H2. destruct He as [-> | ->]; cbn [first_id N.eqb orb]; [reflexivity|].
+  intros [H1 H2 _ _ _ _] He. unfold szip_next. rewrite H1, H2. destruct He as [-> | ->]; cbn [first_id N.eqb orb]; [reflexivity|].
   rewrite orb_true_r. reflexivity.
 Qed.
 
@@ -230,15 +299,17 @@ Lemma szip_next_yield s1 s2 z done1 x1 d1 t1 done2 x2 d2 t2 :
   srep s1 (done1 ++ (x1, d1) :: t1) -> srep s2 (done2 ++ (x2, d2) :: t2) ->
   szip_pos z done1 ((x1, d1) :: t1) done2 ((x2, d2) :: t2) ->
   exists z', szip_next s1 s2 z = Ok (CC_OK, d1, d2, z') /\ szip_pos z' (done1 ++ [(x1, d1)]) t1 (done2 ++ [(x2, d2)]) t2 /\
-             sz1_current z' = x1 /\ sz2_current z' = x2.
+             sz1_current z' = x1 /\ sz2_current z' = x2 /\ sz1_prev z' = last_id done1 0 /\ sz2_prev z' = last_id done2 0.
 Proof.
-  intros R1 R2 [H1 H2 H3 H4]. unfold szip_next. rewrite H1, H2. cbn [first_id].
+  intros R1 R2 [H1 H2 H3 H4 H5 H6]. unfold szip_next. rewrite H1, H2. cbn [first_id].
   assert (Hx1 : x1 <> 0) by (intros ->; apply (sr_nz _ _ R1); rewrite ids_app; apply in_or_app; right; left; reflexivity).
   assert (Hx2 : x2 <> 0) by (intros ->; apply (sr_nz _ _ R2); rewrite ids_app; apply in_or_app; right; left; reflexivity).
   replace (x1 =? 0) with false by lia. replace (x2 =? 0) with false by lia. cbn [orb].
   rewrite (sload_ok _ _ _ Hx1 (sseg_mid _ _ _ _ _ _ (sr_seg _ _ R1))), (sload_ok _ _ _ Hx2 (sseg_mid _ _ _ _ _ _ (sr_seg _ _ R2))).
-  cbn [bind sn_data sn_next]. eexists. split; [reflexivity|]. split; [|auto].
-  constructor; cbn [sz1_next sz2_next sz_index]; try reflexivity.
+  cbn [bind sn_data sn_next].
+  rewrite (sprev_of_spec s1 done1 x1 d1 t1 _ _ R1 H5), (sprev_of_spec s2 done2 x2 d2 t2 _ _ R2 H6). cbn [bind].
+  eexists. split; [reflexivity|]. split; [|auto].
+  constructor; cbn [sz1_next sz2_next sz_index sz1_current sz2_current sz1_prev sz2_prev]; try reflexivity; try apply scur_ok_yield.
   - rewrite H3, lenN_app. reflexivity.
   - rewrite H4, lenN_app. reflexivity.
 Qed.
